@@ -557,6 +557,7 @@ def check_property(prop, tier, quiet=False):
     real_violations = []
     seen_ob = set()
     known_hit = set()
+    known_obligations = []
     for v in violations:
         rendered = ((v.get("failure") or {}).get("rendered") or "") + " " + json.dumps((v.get("failure") or {}).get("where", ""))
         # a known finding is identified by its obligation AND the failing site (a substring of the verifier's
@@ -565,6 +566,8 @@ def check_property(prop, tier, quiet=False):
         k = next((k for k in known_for if k.get("obligation") == v["obligation"]
                   and (not k.get("site_contains") or k["site_contains"] in rendered)), None)
         if k is not None:
+            if v["obligation"] not in known_obligations:
+                known_obligations.append(v["obligation"])
             if k["id"] not in known_hit:
                 known_hit.add(k["id"])
                 lines.append("KNOWN-FINDING: property=%s %s" % (prop, k.get("what", v["obligation"])))
@@ -593,7 +596,10 @@ def check_property(prop, tier, quiet=False):
     ev = {
         "property_id": prop, "tier": tier, "seed": seed, "level": "proof",
         "coverage": {
-            "obligations": obligations, "discharged": discharged,
+            # an obligation that fails only as a listed known finding is not part of what this run proved: it is taken
+            # out of the count and named separately
+            "obligations": obligations - len(known_obligations), "discharged": discharged,
+            "known_finding_obligations": known_obligations,
             "checker_cmd": "; ".join(sorted(set(re.sub(r"/build/[^/]+/", "/build/<prop>/", c) for c in checker_cmds)))[:4000],
             "trusted_base": sorted(set(trusted)),
             "backend": "Verus 0.2026.09.13 (bundled Z3), one query set per function, rlimit %s" % V.RLIMIT,
@@ -636,8 +642,9 @@ def check_property(prop, tier, quiet=False):
     if obligations == 0:
         print("UNDECIDED property=%s: zero obligations generated (vacuous)" % prop)
         return 2
-    print("OK property=%s tier=%s units=%s obligations=%d discharged=%d wall=%.1fs"
-          % (prop, tier, ",".join(r["unit"] for r in results), obligations, discharged, wall))
+    print("OK property=%s tier=%s units=%s obligations=%d discharged=%d%s wall=%.1fs"
+          % (prop, tier, ",".join(r["unit"] for r in results), obligations - len(known_obligations), discharged,
+             (" known-finding-obligations=%d" % len(known_obligations)) if known_obligations else "", wall))
     return 0
 
 
